@@ -14,7 +14,7 @@
 From LR Require Import lib.Base lib.Seg model.LineReader.
 
 Inductive phase :=
-| PRead                  (* in the worker loop: NextRecord / readLine (possibly sleeping at EOF) *)
+| PRead                  (* in the worker loop: NextRecord / readLine, or sleeping at EOF *)
 | PSend (eof : bool)     (* sendOrSleep: the event is offered on the channel *)
 | PWait (eof : bool)     (* waitConfirm: blocked on confCh *)
 | PConf (eof : bool)     (* hand-shake done, desc.setOffset not yet executed *)
@@ -41,8 +41,9 @@ Inductive obs :=
 | OOffset (off : nat)            (* desc offset after setOffset *)
 | OPersisted (off lss : nat)     (* Offset and LastSeenSize written to scanner.json *)
 | ORestart (off : nat)           (* offset the new worker starts at *)
-| OSleep (partial : bool)        (* the worker sleeps: true = inside readLine with a partial line (200 ms),
-                                    false = nothing to send at EOF (1 s) *)
+| OSleep (partial : bool)        (* the worker sleeps: false = in sendOrSleep, nothing to send at EOF (1 s);
+                                    true = inside readLine with a partial line (200 ms): only the reader
+                                    that loops, the code's reader never does *)
 | OExit                          (* the worker returned *)
 | OFresh (off : nat)             (* sync started a worker (new file identity, or the previous worker had returned) at this offset *)
 | OOther (code : nat).           (* never produced by the model *)
@@ -55,7 +56,7 @@ Record st := mkSt {
   wfile : bytes;         (* content of the file the worker has open *)
   wsame : bool;          (* the worker's open file is the file at the path (appends reach it) *)
   rpos : nat;            (* bytes of wfile consumed through the bufio.Reader *)
-  buf : bytes;           (* readLine's partial line *)
+  buf : bytes;           (* the reader's partial line (lineReader.buf) *)
   ppos : nat;            (* parser.pos *)
   recs : list bytes;     (* records of the batch being collected / offered / awaiting confirmation *)
   woff : nat;            (* Offset of the worker's own descriptor (= the map's descriptor while attached) *)
@@ -85,6 +86,8 @@ Definition merge_desc (old : option desc) (id size : nat) : desc * bool :=
   end.
 
 Section Step.
+Variable lp : bool.   (* the reader (LineReader.read_line_turn): false = the code, readLine returns at EOF
+                         (code_reader_loops); true = the reader that loops on a partial line, as before the repair *)
 Variable B : nat.     (* bufio buffer size: buf_size RecordMaxSizeBytes *)
 Variable rpe : nat.   (* EventMaxRecords *)
 
@@ -105,18 +108,20 @@ Definition step (s : st) (e : ev) : st * list obs :=
   | ERead =>
       match ph s with
       | PRead =>
-          match read_line_turn B (buf s) (skipn (rpos s) (wfile s)) with
+          match read_line_turn lp B (buf s) (skipn (rpos s) (wfile s)) with
           | (n, RlLine line) =>
               (* rec != nil: recs = append(recs, rec); pos += len(line) *)
               let recs' := recs s ++ [line] in
               let p' := if Nat.eqb (length recs') rpe then PSend false else PRead in
               (upd_read s (rpos s + n) [] (ppos s + length line) recs' p', [])
           | (n, RlSleep b') => (upd_read s (rpos s + n) b' (ppos s) (recs s) PRead, [OSleep true])
-          | (_, RlEof) =>
+          | (n, RlEof b') =>
+              (* (nil, io.EOF): what was left of the file is now in the reader's partial line; pos unchanged *)
+              let s1 := upd_read s (rpos s + n) b' (ppos s) (recs s) PRead in
               match recs s with
               | [] => (* sendOrSleep with no records: Sleep(1s); then the wsRunUntilEof check *)
-                  if until_eof s then (set_ph s PDone, [OSleep false; OExit]) else (s, [OSleep false])
-              | _ => (set_ph s (PSend true), [])
+                  if until_eof s then (set_ph s1 PDone, [OSleep false; OExit]) else (s1, [OSleep false])
+              | _ => (set_ph s1 (PSend true), [])
               end
           end
       | _ => (s, [])
